@@ -136,13 +136,17 @@ func isRelativeAdd(ins x86asm.Inst) bool {
 	return isAdd
 }
 
-// isGenericBody reports whether pc is the entry of an instantiated generic function - the only thing a wrapper of
-// a generic instantiation can be forwarding to. The other calls such a wrapper may make first are not it: the race
+// isForwardTarget reports whether pc is what the wrapper called wrapperName forwards to: the entry of an instantiated
+// generic function (the shared body of an instantiation), or of a function named like the wrapper itself (an assembly
+// function behind its ABI wrapper: pkg.F -> pkg.F.abi0). The other calls a wrapper may make first are not it: the race
 // detector's runtime.racefuncenter, runtime.duffcopy (entered in its middle) for a large receiver passed by value, the
 // method of an embedded non-generic type that a promoted method forwards to.
-func isGenericBody(pc uintptr) bool {
+func isForwardTarget(pc uintptr, wrapperName string) bool {
 	f := runtime.FuncForPC(pc)
-	return f != nil && f.Entry() == pc && strings.Contains(f.Name(), "[")
+	if f == nil || f.Entry() != pc {
+		return false
+	}
+	return strings.Contains(f.Name(), "[") || (wrapperName != "" && strings.HasPrefix(f.Name(), wrapperName))
 }
 
 // GetInnerFunc Get the first real func location from wrapper
@@ -150,6 +154,10 @@ func isGenericBody(pc uintptr) bool {
 func GetInnerFunc(mode int, start uintptr) (uintptr, error) {
 	prologueLen := len(funcPrologue)
 	code := memory.RawRead(start, defaultInsLen)
+	wrapperName := ""
+	if f := runtime.FuncForPC(start); f != nil {
+		wrapperName = f.Name()
+	}
 
 	var (
 		int3Found = false
@@ -175,9 +183,9 @@ func GetInnerFunc(mode int, start uintptr) (uintptr, error) {
 			} else if curLen+int(relativeAddr) < 0 {
 				target = start + uintptr(curLen) - uintptr(-relativeAddr) + uintptr(inst.Len)
 			}
-			// the wrapper may call other things before the function it forwards to (see isGenericBody): diverting
+			// the wrapper may call other things before the function it forwards to (see isForwardTarget): diverting
 			// one of those would divert it for the whole program
-			if target != 0 && isGenericBody(target) {
+			if target != 0 && isForwardTarget(target, wrapperName) {
 				return target, nil
 			}
 		}
